@@ -8,6 +8,42 @@ static void ir2c_string_init(void* sret, const char* s) {
   if (n > 15) IR2C_MODEL_LIMIT("model string longer than SSO");
   t->p = t->u.buf; t->len = n; memcpy(t->u.buf, s, n + 1);
 }
+/* basic_string::_M_replace(pos, len1, s, len2): libstdc++'s version decides with relational pointer comparisons whether
+ * `s` aliases the string's own buffer; across distinct objects that comparison has no fixed answer in CBMC and the
+ * (never taken) aliasing branch explodes symbolic execution.  Model: the standard semantics for a source that does
+ * not alias; an aliasing source is a model limit (asserted). */
+#ifdef __CPROVER__
+#define IR2C_ALIASES(s, t) (__CPROVER_same_object((s), (t)->p))
+#else
+#define IR2C_ALIASES(s, t) ((const char*)(s) >= (t)->p && (const char*)(s) <= (t)->p + (t)->len)
+#endif
+static void* M__ZNSt7__cxx1112basic_stringIcSt11char_traitsIcESaIcEE10_M_replaceEmmPKcm(void* self, uint64_t pos, uint64_t len1, void* src, uint64_t len2) {
+  struct ir2c_string* t = (struct ir2c_string*)self;
+  uint64_t old = t->len;
+  if (len2 > 0x3fffffffffffffffULL - (old - len1)) { M__ZSt20__throw_length_errorPKc((void*)"basic_string::_M_replace"); return self; }
+  uint64_t newlen = old + len2 - len1;
+  uint64_t cap = (t->p == t->u.buf) ? 15 : t->u.cap;
+  uint64_t tail = old - pos - len1;
+  if (len2 && IR2C_ALIASES(src, t)) IR2C_MODEL_LIMIT("basic_string::_M_replace with a source inside the string itself");
+  if (newlen <= cap) {
+    char* p = t->p + pos;
+    if (tail && len1 != len2) __ir2c_memmove(p + len2, p + len1, tail);
+    if (len2) __ir2c_memcpy(p, src, len2);
+  } else {
+    uint64_t newcap = newlen;
+    if (newcap < 2 * cap) newcap = 2 * cap;
+    char* np = (char*)M__Znwm(newcap + 1);
+    if (pos) __ir2c_memcpy(np, t->p, pos);
+    if (len2) __ir2c_memcpy(np + pos, src, len2);
+    if (tail) __ir2c_memcpy(np + pos + len2, t->p + pos + len1, tail);
+    if (t->p != t->u.buf) M__ZdlPv(t->p);
+    t->p = np;
+    t->u.cap = newcap;
+  }
+  t->len = newlen;
+  t->p[newlen] = 0;
+  return self;
+}
 /* std::runtime_error base sub-object: contents never inspected (what() text is outside every claim) */
 static void M__ZNSt13runtime_errorC2ERKNSt7__cxx1112basic_stringIcSt11char_traitsIcESaIcEEE(void* self, void* s) { (void)self; (void)s; }
 static void M__ZNSt13runtime_errorC1ERKNSt7__cxx1112basic_stringIcSt11char_traitsIcESaIcEEE(void* self, void* s) { (void)self; (void)s; }
@@ -25,6 +61,7 @@ static void M__ZN5bloch7support6formatENS0_13ErrorCategoryEiiRKNSt7__cxx1112basi
 static void M__ZN9__gnu_cxx12__to_xstringINSt7__cxx1112basic_stringIcSt11char_traitsIcESaIcEEEcEET_PFiPT0_mPKS8_P13__va_list_tagEmSB_z(void* sret, void* conv, uint64_t n, void* fmt, ...) {
   (void)conv; (void)n; (void)fmt; ir2c_string_init(sret, "<ANGLE>");
 }
+#ifdef IR2C_HAVE_L_d_d
 static struct L_d_d M_cexp(double re, double im) {
   struct L_d_d r;
   if ((__ir2c_d2u(re) & ~IR2C_SIGN) == 0) { r.f0 = M_cos(im); r.f1 = M_sin(im); return r; }
@@ -42,4 +79,5 @@ static struct L_d_d M___muldc3(double a, double b, double c, double d) {
 #endif
   r.f0 = a * c - b * d; r.f1 = a * d + b * c; return r;
 }
+#endif
 #endif
